@@ -575,7 +575,8 @@ class Path:
                 det = f"{detail} normal form of goal: {nfp!r}"
                 if res == "witness":
                     status = "refuted"
-                    wit = {"field": "GF(2^61-1)", "assignment": {k: int(v) for k, v in sorted(env.items())}}
+                    wit = {"field": f"GF({self.pc.sample_modulus()})" if self.pc.char else "GF(2^61-1)",
+                           "assignment": {k: int(v) for k, v in sorted(env.items())}}
                 else:
                     status = "unknown"
                     det += f" ({res}: {env})"
